@@ -353,7 +353,7 @@ def mode_reachable(body, sinks, adt_pat=r"schema::IntrospectionMode$", max_state
     # pre-compute eq-call results: dest local -> (level, variant)
     eqs = {}
     for c in body.calls():
-        if c.callee and c.callee.endswith("::eq") and len(c.args) == 2 and any("IntrospectionMode" in t for t in c.argtys):
+        if c.callee and c.callee.endswith(("::eq", "::ne")) and len(c.args) == 2 and any("IntrospectionMode" in t for t in c.argtys):
             lv = var = None
             for a in c.args:
                 k = None
@@ -367,7 +367,7 @@ def mode_reachable(body, sinks, adt_pat=r"schema::IntrospectionMode$", max_state
                     if places:
                         lv = _mode_level(body, places[0])
             if lv and var:
-                eqs[c.dest[0]] = (lv, var, c.bb)
+                eqs[c.dest[0]] = (lv, var, c.bb, c.callee.endswith("::ne"))
     for sm in MODES:
         for rm in MODES:
             assume = {"schema": sm, "request": rm}
@@ -404,8 +404,8 @@ def mode_reachable(body, sinks, adt_pat=r"schema::IntrospectionMode$", max_state
                 if t[0] == "call":
                     d = t[3][0]
                     if d in eqs and eqs[d][2] == bb:
-                        lv, var, _ = eqs[d]
-                        envd[d] = 1 if assume[lv] == var else 0
+                        lv, var, _, neg = eqs[d]
+                        envd[d] = (1 if assume[lv] == var else 0) ^ (1 if neg else 0)
                     else:
                         envd.pop(d, None)
                 if t[0] == "switch":
@@ -498,3 +498,58 @@ def lookups_keyed_by_response_key(F, bodies):
                 if flows_through(b, c.args[1], r"::response_key$") is not None or any(k == "field" and ".alias" in x for k, x in o):
                     bad.append(c)
     return bad
+
+
+def ps_reachable(body, start=0, avoid=(), max_states=200000):
+    """Blocks reachable from `start` never entering `avoid`, path-sensitive for boolean temporaries: a local whose
+    every definition assigns a constant bool (the lowering of `matches!` / `&&` / `||`) is tracked, and a switch on a
+    tracked local with a known value follows only the decided edge."""
+    avoid = set(avoid)
+    const_bool = {}
+    defs = {}
+    for bb, s in body.all_stmts():
+        if len(s[0]) == 1:
+            defs.setdefault(s[0][0], []).append(s[1])
+    tracked = set()
+    for l, rs in defs.items():
+        ok = True
+        for r in rs:
+            if r[0] == "use" and r[1][0] == "k":
+                k = body.kconst(r[1])
+                if not (k and k.get("ty") == "bool" and body.kint(r[1]) is not None):
+                    ok = False
+            else:
+                ok = False
+        if ok and not any(c.dest and c.dest[0] == l for c in body.calls()):
+            tracked.add(l)
+    seen = set()
+    out = set()
+    if start in avoid:
+        return out
+    work = [(start, ())]
+    while work and len(seen) < max_states:
+        bb, env = work.pop()
+        if (bb, env) in seen:
+            continue
+        seen.add((bb, env))
+        out.add(bb)
+        envd = dict(env)
+        for s in body.stmts(bb):
+            if len(s[0]) == 1 and s[0][0] in tracked:
+                envd[s[0][0]] = body.kint(s[1][1])
+        t = body.term(bb)
+        nxt = None
+        if t[0] == "switch" and t[1][0] in ("c", "m") and len(t[1][1]) == 1 and t[1][1][0] in envd:
+            val = envd[t[1][1][0]]
+            taken = t[3]
+            for v, tgt in t[2]:
+                if str(v).lstrip("-").isdigit() and int(v) == val:
+                    taken = tgt
+            nxt = [taken]
+        if nxt is None:
+            nxt = body.succ(bb)
+        fenv = tuple(sorted(envd.items()))
+        for n in nxt:
+            if n not in avoid:
+                work.append((n, fenv))
+    return out
